@@ -346,9 +346,10 @@ func (prop) Run(t *testing.T, tape *kernel.Tape, sc kernel.Scenario) *kernel.Res
 		op.Consumes = []string{"multipart/form-data"}
 		op.Params = append(op.Params, simapi.Param{Name: "field", In: "formData", Type: "string"}, simapi.Param{Name: "access_token", In: "formData", Type: "string"})
 	}
-	otherScopes := []string{"write", "read", "read"}
-	if scheme != "bearer" {
-		otherScopes = nil
+	// same number of scopes, all different: a buffer reused between calls would show through
+	var otherScopes []string
+	for _, sc := range reqScopes {
+		otherScopes = append(otherScopes, "other-"+sc)
 	}
 	op2 := simapi.Op{Method: "GET", Path: "/other", ID: "other", Security: &[]map[string][]string{{"S": otherScopes}}, Params: []simapi.Param{{Name: "X-Req", In: "header", Type: "string"}}}
 	api := &simapi.API{BasePath: "/api", Consumes: []string{"application/json"}, Produces: []string{"application/json"},
